@@ -504,6 +504,10 @@ class SymEval:
                     m = re.search(r"\[(\d+)\]$", fn.ntype(n) or "")
                     if m:
                         b.fields[n["n"]] = Arr([None] * int(m.group(1)))   # member array, default-initialised
+                    else:
+                        size = self._std_array_size(fn.ntype(n) or "", fn)
+                        if size is not None:
+                            b.fields[n["n"]] = Arr([None] * size)          # std::array member, default-initialised
                 r = FieldRef(b, n["n"])
                 return r if want_lvalue else r.get()
             if "v" in n:
@@ -579,6 +583,27 @@ class SymEval:
         if isinstance(v, Lin) and v.is_const():
             return v.c != 0
         raise Unsupported("non-constant condition %r (line %s)" % (v, n.get("l")))
+
+    def _std_array_size(self, ty, fn):
+        """element count of a `std::array<T, N>` type string; N may be spelled as a named class constant (type sugar)"""
+        m = re.match(r"^(?:const\s+)?std::array<.*,\s*([^,<>]+(?:\([^()]*\))?)>\s*&?$", ty.strip())
+        if not m:
+            return None
+        e = m.group(1).strip()
+        mm = re.match(r"^(?:std::)?size_t\((.*)\)$", e)
+        if mm:
+            e = mm.group(1).strip()
+        if re.match(r"^\d+(U|UL|ULL|u|ul)?$", e):
+            return int(re.match(r"^\d+", e).group(0))
+        if re.match(r"^[A-Za-z_]\w*$", e):
+            # a static constexpr member of the same class: take its value from any resolved reference to it
+            for flist in self.by_qn.values():
+                for g in flist:
+                    if g.cls == fn.cls:
+                        for x in g.nodes():
+                            if x.get("k") == "Ref" and x.get("n") == e and "v" in x:
+                                return int(x["v"])
+        return None
 
     def subscript(self, b, i, n, want_lvalue=False):
         if hasattr(b, "op_index"):
@@ -713,8 +738,8 @@ class SymEval:
 # literal tables and decision trees
 # -------------------------------------------------------------------------------------------------
 
-def extract_table2(fn):
-    """`static const int T[][] = {...}; return T[p0][p1];`  ->  (rows, line)"""
+def extract_table2(fn, _depth=0):
+    """`static const int T[][] = {...}; return T[p0][p1];` (or `return Sibling::map(p0, p1);`)  ->  rows"""
     table = None
     tdecl = None
     ret = None
@@ -743,6 +768,21 @@ def extract_table2(fn):
             continue    # ASSERT(...) expands to void(0) in release parses
         else:
             raise Unsupported("%s: statement %s in a table function" % (fn.full, s["k"]))
+    if table is None and ret is not None and len(fn.params) == 2 and _depth < 3:
+        # `return Sibling::map(a, b);` - the table of a sibling mapping, looked up with the same two arguments in the same order
+        e = ret["e"]
+        while e is not None and e.get("k") == "Cast":
+            e = e["e"]
+        if e is not None and e.get("k") == "Call" and len(e.get("a", [])) == 2:
+            args = []
+            for a in e["a"]:
+                while a.get("k") == "Cast":
+                    a = a["e"]
+                args.append(a.get("d") if a.get("k") == "Ref" else None)
+            target = fn.facts.by_decl(e.get("cdecl")) if hasattr(fn, "facts") and e.get("cdecl") is not None else None
+            if target is not None and target.tk != "pattern" and target.body is not None and args == [fn.params[0]["d"], fn.params[1]["d"]]:
+                return extract_table2(target, _depth + 1)
+            raise Unsupported("%s: forwards to %s with other arguments than (%s, %s)" % (fn.full, e.get("callee"), fn.params[0]["n"], fn.params[1]["n"]))
     if table is None or ret is None or len(fn.params) != 2:
         raise Unsupported("%s: not of the form `return table[a][b]`" % fn.full)
     e = ret["e"]
